@@ -98,10 +98,26 @@ class Client:
         self.obs.update(repr(what).encode())
         self.nobs += 1
 
+    def where(self):
+        """Control state of the parked client: the library frames on its
+        stack.  Two clients with equal observation logs but different
+        control locations (they read different values from memory the
+        harness does not watch) must not be merged."""
+        import sys
+        if self.thread is None or self.state == 'done':
+            return ()
+        frame = sys._current_frames().get(self.thread.ident)
+        out = []
+        while frame is not None:
+            if '/diskcache/' in frame.f_code.co_filename:
+                out.append((frame.f_code.co_name, frame.f_lineno))
+            frame = frame.f_back
+        return tuple(out)
+
     def local_key(self):
         return (self.pc, self.nobs, self.obs.hexdigest()[:16], self.state,
                 self.blocked, self.sleeping, tuple(self.call_vecs),
-                self.wake_at)
+                self.wake_at, self.where())
 
 
 class Execution:
@@ -299,6 +315,26 @@ class Execution:
             self.ctl.release()
 
     # -- controller -------------------------------------------------------------
+    def shared_memory(self):
+        """Plain attributes of objects that several clients share (their
+        Python-level shared memory)."""
+        out = []
+        seen = set()
+        for obj in getattr(self.sc, 'objects', []) or []:
+            stack = [obj]
+            while stack:
+                o = stack.pop()
+                if id(o) in seen or not hasattr(o, '__dict__'):
+                    continue
+                seen.add(id(o))
+                for k, v in sorted(vars(o).items()):
+                    if isinstance(v, (int, float, str, bool, type(None))):
+                        out.append((type(o).__name__, k, v))
+                    elif isinstance(v, (tuple, list)) and v and hasattr(
+                            v[0], '__dict__') and len(v) <= 16:
+                        stack.extend(v)      # FanoutCache._shards
+        return tuple(out)
+
     def state_key(self):
         shared = self.sc.shared_key(self)
         locals_ = tuple(c.local_key() for c in self.clients)
